@@ -188,7 +188,7 @@ def scenario(c, inst, props):
     t0, dt0 = c.real("t0"), c.real("dt0")
     infinite = inst.get("infinite_tf", False)
     if infinite:
-        tf = float("inf")
+        tf = float("-inf") if infinite == "neg" else float("inf")
         c.assume(dt0 != 0)
         c.assume(absval(c, dt0) >= 1.0 / 64)
         c.assume(absval(c, dt0) <= 256)
@@ -221,7 +221,7 @@ def scenario(c, inst, props):
         if inst.get("swap_constants") and len(cb_calls) == 1:
             # a step callback installs new constants (a staged system): rhs AND event functions see them from the next step on
             system.constants = dict(k=c.real("k_new"))
-    backward = (not infinite) and bool(tf - t0 < 0)
+    backward = (infinite == "neg") or ((not infinite) and bool(tf - t0 < 0))
     sgn = -1 if backward else 1
     oracle.fault_call = inst.get("fault_call")
     oracle.landing_fault = inst.get("landing_fault")
